@@ -208,6 +208,46 @@ def run(chk):
             d = float(round(node_min + t * (bot - node_min)))
             i = cs.p3(slot, (float(pt[0]), float(pt[1]), TOP - d), d, [[1, 0, 0]])
             local_plan.append((i, wv, fs, m, pt, d))
+    # the "local bottom" clause: the *model's* max depth given at points while its min depth is a plain number or absent (and
+    # the mirror image): at a listed point the model ends at the listed value, and a linear profile runs from the local top to it
+    bottom_plan = []
+    for wi in range(12 if quick else 120):
+        rng.seed("%d/c05-2b/%d" % (chk.seed, wi))      # every world has its own stream: families do not disturb each other
+        kind = kinds[wi % 3]
+        w = {"version": "1.1"}
+        g.globals(w)
+        w.pop("force surface temperature", None)
+        wv = {"Tp": w.get("potential mantle temperature", 1600), "alpha": w.get("thermal expansion coefficient", 3.5e-5),
+              "cp": w.get("specific heat", 1250), "kappa": w.get("thermal diffusivity", 0.804e-6),
+              "g": w.get("gravity model", {}).get("magnitude", 9.81)}
+        poly = g.polygon(0.0, 0.0, 3e5)
+        pt = g.interior_point(poly)
+        fmax = float(round(rng.uniform(2.5e5, 3.5e5)))
+        corner_max = float(round(rng.uniform(1.5e5, 2.2e5)))
+        node_max = float(round(rng.uniform(6e4, 1.2e5)))
+        mmin = rng.choice([None, 0.0, 1e4])
+        f = {"model": kind, "name": "a", "coordinates": poly, "max depth": fmax}
+        if (wi // 3) % 2 == 0:
+            m = {"model": "linear", "top temperature": rng.choice([300.0, 420.0]), "bottom temperature": rng.choice([1500.0, 1250.0])}
+        else:
+            m = {"model": "uniform", "temperature": float(round(rng.uniform(400, 1400), 1))}
+        m["max depth"] = [[corner_max], [node_max, [pt]]]
+        if mmin is not None:
+            m["min depth"] = mmin
+        f["temperature models"] = [m]
+        w["features"] = [f]
+        slot = cs.add_world(w)
+        ms = dict(m)
+        ms["max depth"] = node_max
+        top = mmin or 0.0
+        for t in (0.1, 0.4, 0.7, 0.95):
+            d = float(round(top + t * (node_max - top)))
+            i = cs.p3(slot, (float(pt[0]), float(pt[1]), TOP - d), d, [[1, 0, 0]])
+            bottom_plan.append((i, wv, f, ms, pt, d, True))
+        for extra in (3e3, 2e4):
+            d = float(round(node_max + extra))       # below the local bottom of the model: nothing paints here
+            i = cs.p3(slot, (float(pt[0]), float(pt[1]), TOP - d), d, [[1, 0, 0]])
+            bottom_plan.append((i, wv, f, ms, pt, d, False))
     # ridge models in spherical worlds: plates across the +-180 meridian, oblique ridges, one spreading velocity per ridge
     # coordinate (the nearest ridge point is reached through the longitude alias); decided by the model, bit for bit
     from wbgen import cart_point
@@ -313,6 +353,21 @@ def run(chk):
             dsc["expected"], dsc["got"] = exp, v[0]
             viol.append(("%s temperature model (%s, feature min depth given at points) returns %.10g at a listed point; measured from the "
                          "local top of the feature the documented closed form gives %.10g" % (m["model"], fs["model"], v[0], exp), dsc))
+    for (i, wv, f_, ms, pt, d, inside) in bottom_plan:
+        v = common.parse_vec(impl[i])
+        if v is None:
+            viol.append(("query inside the feature throws", cs.describe(i)))
+            continue
+        exp = spec_temperature(wv, f_, ms, pt[0], pt[1], d) if inside else adiabat(wv, d)
+        if exp is None:
+            continue
+        chk.nontriv((i,))
+        if abs(v[0] - exp) > 1e-9 * max(1.0, abs(exp)):
+            dsc = cs.describe(i)
+            dsc["expected"], dsc["got"] = exp, v[0]
+            viol.append(("%s temperature model (%s, the model's max depth given at points) returns %.10g at a listed point %s its local bottom; "
+                         "with the listed value as the bottom of the model the documented closed form gives %.10g"
+                         % (ms["model"], f_["model"], v[0], "above" if inside else "below", exp), dsc))
     per_model = {}
     for (i, w, wv, f, m, cm, vm, gm, ip, d) in plan:
         v = common.parse_vec(impl[i])
